@@ -125,6 +125,12 @@ func (fx *FnExec) loopEnv(st *State, fr *frame, h *loopHdr) *evalEnv {
 // the caller when needed.
 func (fx *FnExec) frameEnv(st *State, fr *frame) *evalEnv {
 	env := &evalEnv{fx: fx, st: st, old: st.entryHeap, vars: map[string]cval{}, iters: st.loopIters}
+	if fr.fc != nil && len(fr.fc.GhostVars) > 0 {
+		env.gvars = map[string]string{}
+		for _, g := range fr.fc.GhostVars {
+			env.gvars[g.Name] = g.Type
+		}
+	}
 	if fr.fn.Pkg != nil {
 		env.pkg = fr.fn.Pkg.Pkg
 	} else if fr.fn.Parent() != nil && fr.fn.Parent().Pkg != nil {
@@ -322,6 +328,12 @@ func (fx *FnExec) loopEnter(st *State, fr *frame, h *loopHdr, b, pred *ssa.Basic
 	na := fx.freshConst("alloc@loop", "Int")
 	st.assume("(>= " + na + " " + st.alloc + ")")
 	st.alloc = na
+	// the havocked heap is a well-formed heap
+	for _, name := range sortedKeys(mods) {
+		if f := fx.heapWF(name, mods[name].sort, st.heap[name], na); f != "" && !strings.ContainsAny(st.heap[name], "( ") {
+			st.assume(f)
+		}
+	}
 	for _, ins := range b.Instrs {
 		phi, ok := ins.(*ssa.Phi)
 		if !ok {
@@ -615,6 +627,19 @@ func (fx *FnExec) loopModsPass(st *State, fr *frame, h *loopHdr, names map[strin
 	for _, b := range blocks {
 		for _, ins := range b.Instrs {
 			ms.scanInstr(fr.fn, ins, true)
+			if fr.fc != nil && len(fr.fc.GhostSets) > 0 {
+				if gss, ok := fr.fc.GhostSets[fx.ord(fr.fn, ins, "")]; ok {
+					env := &evalEnv{fx: fx}
+					for _, gs := range gss {
+						for _, g := range fr.fc.GhostVars {
+							if g.Name == gs.Name {
+								rs, _ := env.resolveType(g.Type)
+								ms.add("gv."+g.Name, rs, false)
+							}
+						}
+					}
+				}
+			}
 		}
 	}
 	// deferred calls run at function exit, not in the loop
